@@ -787,7 +787,19 @@ def coq_case(case, obs, declog, seg):
             cblist(case["bad_first"]), s, seg, "[" + ";".join(chttp(m) for m in obs["msgs"]) + "]", H(obs["rest"])))
     # two layers
     if conn == "datastream":
-        layer = "(L2DataStream %s)" % cblist(case["bad_payloads"])
+        consumer = [bytes.fromhex(h) for h in case.get("consumer", [])]
+        handed = [(bytes.fromhex(h), h not in case.get("consumer", [])) for h in obs["protobufs"]]
+        rep = obs["replies"]
+        replies = []
+        if not rep.startswith("undecryptable"):
+            raw = bytes.fromhex(rep)
+            replies = [struct.unpack(">Q", raw[i + 20:i + 28])[0] for i in range(0, len(raw) - 31, 32)]
+        layer = "(L2DataStream %s %s %s %s %s)" % (
+            cblist(case["bad_payloads"]),
+            "[" + ";".join("(%s, %s)" % (cb(pl), cblist(pbs)) for pl, pbs in case["pbtab"]) + "]",
+            cblist(consumer),
+            "[" + ";".join("(%s, %s)" % (cb(pb), common.cbool(ok)) for pb, ok in handed) + "]",
+            "[" + ";".join(common.cN(q) for q in replies) + "]")
         msgs = ["(L2D %s)" % cds(f) for f in obs["msgs"]]
         failed = obs["raised"] is not None
     elif conn == "event":
@@ -891,7 +903,7 @@ def gen_cases(ctx):
     cases.append(ds_case(["rply", "rply", "sync"], blocks=[31, 2, 31, 1024]))
     cases.append(ds_case(["sync", "sync"], blocks=[33, 64, 1024]))
     cases.append(with_consumer(ds_case(["sync", "sync", "sync"], blocks="per-frame"), [0]))
-    cases.append(with_consumer(ds_case(["sync", "rply", "sync", "sync"], blocks="per-frame"), [1]))
+    cases.append(with_consumer(ds_case(["sync", "rply", "sync", "sync"], blocks="per-frame"), [1, 2]))
     cases.append(ds_case(["sync", "list", "sync"], valid=False, what="second frame's payload is a plist list: handler raises"))
     cases.append(ds_case(["rply", ds_frame(rng, "rply", 5, size_override=0), "sync"], valid=False, what="header.size = 0 (pre-fix 6360fe4: endless loop)"))
     cases.append(ds_case(["sync", ds_frame(rng, "rply", 5, size_override=31)], valid=False, what="header.size = 31"))
@@ -1041,8 +1053,11 @@ def prepare(case):
                 bad.append(p)
         case["pb_bad"] = bad
     if case["conn"] == "datastream":
-        # which payloads make the handler raise: each payload alone through a fresh channel's handler
+        # which payloads make the channel's own steps raise (decode_payload, message.get, ...): each
+        # payload alone through a fresh channel whose listener returns normally - a raising LISTENER is
+        # not among them (the model says it is contained); and the protobuf messages of each payload
         bad = []
+        pbtab = []
         plain = case["plain"]
         pos = 0
         while pos + 32 <= len(plain):
@@ -1050,7 +1065,7 @@ def prepare(case):
             if size < 32:
                 break
             payload = plain[pos + 32:pos + size]
-            d = DataStreamDriver(case)
+            d = DataStreamDriver(dict(case, consumer=[]))
             try:
                 with time_limit():
                     pl = d.ch.decode_payload(payload)
@@ -1058,8 +1073,11 @@ def prepare(case):
                         d.ch._process_payload(pl)
             except Exception:
                 bad.append(payload)
+            if payload not in [q for q, _ in pbtab]:
+                pbtab.append((payload, [bytes.fromhex(h) for h in d.pbs]))
             pos += size
         case["bad_payloads"] = bad
+        case["pbtab"] = pbtab
 
 
 def delivered_count(conn, o):
@@ -1462,7 +1480,7 @@ def run(ctx):
         "the segmentation theorems for the three HTTP loops assume that the strict parser (which refuses a negative Content-Length) reads the unsplit stream without failure; with a negative length the code as written is segmentation dependent (theorem C02_http_negative_content_length_refuted) - not a valid stream; termination (C02_loops_terminate, C02_http_parse_consumes) holds for every integer length",
         "header keys are ASCII (str.lower of non-ASCII letters is not modelled); the body's text decoding is ignored",
         "the 64-bit/96-bit nonce counters do not overflow; EventChannel.send does not raise (transport connected)",
-        "the layer above is an input: listeners raise on scripted messages (MRP, Companion: swallowed by the per-frame barrier - theorems C02_*_consumer_segmentation; data stream channel: no barrier, the exception leaves data_received = model failure EHandler and is reported as C02:datastream:consumer-exception-escapes); the event channel and the HTTP client hand messages to no callback that could raise (reply via transport.write / asyncio.Event.set)",
+        "the layer above is an input: listeners raise on scripted messages; MRP, Companion and (since fix 471aec0) the data stream channel contain that behind a per-message barrier - theorems C02_*_consumer_segmentation; an exception of the layer above that leaves data_received is reported as C02:<conn>:consumer-exception-escapes; the event channel and the HTTP client hand messages to no callback that could raise (reply via transport.write / asyncio.Event.set)",
         "streams with a blank request line are not valid streams: EventChannel then delays the following complete request until the next read (lemma evchan_blank_line_depends_on_segmentation)",
     ]
 
